@@ -3,7 +3,9 @@
 (* Which Ingresses belong to this controller (property C08), from          *)
 (* docs/content/en/docs/configuration/keys.md "Class matter" and the       *)
 (* Ingress Class section of command-line.md.                               *)
-(*   ann : "absent" | "ours" | "foreign"   kubernetes.io/ingress.class      *)
+(*   ann : "absent" | "ours" | "foreign" | "empty"  kubernetes.io/ingress.class *)
+(*         (empty: the annotation is there with the empty string as value:   *)
+(*          a class was declared, and it is not the one of this controller)  *)
 (*   cls : "absent" | "ours" | "foreign" | "dangling"   ingressClassName    *)
 (*         (ours: an IngressClass whose controller is this controller;      *)
 (*          dangling: no such IngressClass)                                 *)
@@ -11,7 +13,7 @@
 (***************************************************************************)
 EXTENDS Integers, Sequences, FiniteSets, TLC, Json
 
-Anns == {"absent", "ours", "foreign"}
+Anns == {"absent", "ours", "foreign", "empty"}
 Clss == {"absent", "ours", "foreign", "dangling"}
 
 DocSelected(ann, cls, ww, prec) ==
